@@ -9,6 +9,7 @@ from __future__ import annotations
 
 import contextvars
 import operator
+import os
 import typing
 from abc import abstractmethod, ABC
 from collections import UserDict
@@ -62,6 +63,45 @@ if TYPE_CHECKING:
     from .conclusion import Conclusion
 
 _symbolic_mode = contextvars.ContextVar("symbolic_mode", default=None)
+
+_VERIFICATION_HOOKS_ = bool(os.environ.get("KRROOD_VERIF"))
+"""
+Verification hook, off by default: when the environment variable KRROOD_VERIF is set before this module is imported,
+the conclusions attached to an expression are kept in insertion order instead of in a plain set, so that the order in
+which several conclusions of one node are applied does not depend on the memory addresses of the conclusion objects.
+"""
+
+
+class _InsertionOrderedSet:
+    """The part of the set interface that is used for conclusions, iterating in insertion order (verification hook)."""
+
+    def __init__(self, items=()):
+        self._items = dict.fromkeys(items)
+
+    def add(self, item):
+        self._items[item] = None
+
+    def update(self, items):
+        for item in items:
+            self._items[item] = None
+
+    def clear(self):
+        self._items.clear()
+
+    def union(self, *others):
+        result = _InsertionOrderedSet(self._items)
+        for other in others:
+            result.update(other)
+        return result
+
+    def __iter__(self):
+        return iter(list(self._items))
+
+    def __len__(self):
+        return len(self._items)
+
+    def __contains__(self, item):
+        return item in self._items
 
 
 def _set_symbolic_mode(mode: EQLMode):
@@ -166,6 +206,8 @@ class SymbolicExpression(Generic[T], ABC):
     _plot_color__: Optional[ColorLegend] = field(default=None, init=False, repr=False)
 
     def __post_init__(self):
+        if _VERIFICATION_HOOKS_:
+            self._conclusion_ = _InsertionOrderedSet()
         if not self._id_:
             self._id_ = id_generator(self)
             self._create_node_()
